@@ -9,10 +9,19 @@ def c29(tier, seed):
     q = tier == "quick"
     jobs = []
     for h in ["VerifK29cObject", "VerifK29cRelation", "VerifK29cUserID"]:
-        jobs.append(J(TUP, h, len=3 if q else 5, timeout_ms=60000 if q else 300000))
+        jobs.append(J(TUP, h, len=4 if q else 5, timeout_ms=120000 if q else 300000))
         jobs.append(J(TUP, h, len=6 if q else 9, ascii=1, timeout_ms=60000 if q else 300000))
+    # usersets need >= 5 bytes (`t:i#r`)
+    jobs.append(J(TUP, "VerifK29cUserset", len=5 if q else 6, timeout_ms=300000))
+    jobs.append(J(TUP, "VerifK29cUserset", len=7 if q else 9, ascii=1, timeout_ms=300000))
+    jobs.append(J(TUP, "VerifK29cUser", len=4 if q else 5, timeout_ms=300000))
+    jobs.append(J(TUP, "VerifK29cWildcard", len=4 if q else 6, timeout_ms=300000))
+    jobs.append(J(TUP, "VerifK29bUserProto", len=5 if q else 6, timeout_ms=300000))
+    if not q:
+        jobs.append(J(TUP, "VerifK29cUser", len=7, ascii=1, timeout_ms=600000))
+        jobs.append(J(TUP, "VerifK29bUserProto", len=8, ascii=1, timeout_ms=600000))
     jobs.append(J(TUP, "VerifK29aRoundTrip", obj=3, rel=1, usr=3, timeout_ms=120000))
-    jobs.append(J(TUP, "VerifK29aRoundTrip", obj=4, rel=2, usr=4, ascii=1, timeout_ms=120000))
+    jobs.append(J(TUP, "VerifK29aRoundTrip", obj=3 if q else 4, rel=2, usr=3 if q else 4, ascii=1, timeout_ms=300000))
     jobs.append(J(TUP, "VerifK29aParsePrint", len=8, timeout_ms=120000))
     jobs.append(J(TUP, "VerifK29bSplitObjectRelation", o=4, r=3, timeout_ms=120000))
     jobs.append(J(TUP, "VerifK29bUserParts", len=5 if q else 7, timeout_ms=120000))
